@@ -134,6 +134,8 @@ type VC struct {
 	inlineStack []*ssa.Function
 	heldOnEntry map[string]bool
 	lockChecksOff bool
+	pendingAxioms []string
+	axiomDone map[int]bool
 }
 
 // Usage records what a verification run relied on (for the evidence).
